@@ -75,9 +75,11 @@ def coq_tags(vtext, tags, timeout=900):
 
 def struct_value(st):
     k, nop, cs_ = st
-    if nop <= 0:
-        return float("nan")
-    return k * math.log(nop) + sum(math.log(c) for c in cs_)
+    def lg(x):                      # numpy's log on the edge of its domain
+        return math.log(x) if x > 0 else (float("-inf") if x == 0 else float("nan"))
+    if nop <= 0 and k == 0:
+        return float("nan")         # 0 * -inf
+    return k * lg(nop) + sum(lg(c) for c in cs_)
 
 
 def close(a, b):
